@@ -53,3 +53,28 @@ Fixpoint mism_from (i : nat) (cs : list (nat * gv * nat * cv)) : list nat :=
   | c :: t => if case_ok c then mism_from (S i) t else i :: mism_from (S i) t
   end.
 Definition c16_mismatches := mism_from 0%nat.
+
+(* values across the boundary of embedded sub-processes (Model/Scopes.v): what the engine did as a list of operations
+   (kind, scope, name, value) -- kind 0: a value stored from that scope (0 = the process, d = d levels of sub-process
+   deep); kind 1: a read from that scope and what it gave. Replayed on the model with the locator wiring and the
+   SetVariable of the sources: every read must give what the model reads. *)
+From BV Require Import Model.Scopes Gen.Facts.
+From Coq Require Import NArith.
+Definition scase_ok (ops : list (N * N * N * N)) : bool :=
+  let sh := src_subprocess_shares_the_locator in
+  let ip := negb src_setvariable_replaces in
+  snd (fold_left (fun (acc : (heap * list table) * bool) (op : N * N * N * N) =>
+         let '(st, ok) := acc in
+         let '(k, s, n, v) := op in
+         if N.eqb k 0 then (swrite sh ip st (N.to_nat s, N.to_nat n, N.to_nat v), ok)
+         else (st, ok && match sread sh st (N.to_nat s) (N.to_nat n) with
+                         | Some x => Nat.eqb x (N.to_nat v)
+                         | None => false
+                         end))
+       ops (([], [[]; []; []; []]), true)).
+Fixpoint smism_from (i : nat) (cs : list (list (N * N * N * N))) : list nat :=
+  match cs with
+  | [] => []
+  | c :: t => if scase_ok c then smism_from (S i) t else i :: smism_from (S i) t
+  end.
+Definition c16_scope_mismatches := smism_from 0%nat.
